@@ -10,7 +10,7 @@ REG = dict(   # rename to REG once the findings below are triaged (fixed in /rep
           "Mutants = EVERY single-point edit of each base program: each subexpression replaced by each of 19 literal alternatives (every grammar type, wrong-payload "
           "Option/List, empty list, tuple, closure, constructor, Float, Unit, throw) and by every name in scope, an unbound name and the function names; operator, "
           "callee, method name (17), field name, struct field/type name, pattern (11) and every annotation (10) replaced; an argument / parameter / struct field / "
-          "closure parameter dropped or added; a match arm or an else dropped; a returned value dropped or added; binders renamed. Plus, for every binder whose scope ends before the function body does (for variable, let inside an if/else/match-arm/for/while block, match payload, closure parameter, parameter of the other function), a reference to the bound name in a later statement of the function (variable referenced out of scope). "
+          "closure parameter dropped or added; a match arm or an else dropped; a returned value dropped or added; binders renamed. Plus, for every binder whose scope ends before the function body does (for variable, let inside an if/else/match-arm/for/while block, match payload, closure parameter, parameter of the other function), a reference to the bound name in a later statement of the function (variable referenced out of scope). Plus 99 frame-boundary programs: a local variable of the top level (plain, annotated, defined later, inside a top-level block) used in nine positions of a function or method body, which runs in a frame of its own. "
           "quick: depth 1 (canonical parameter fill) with all edits + depth 2 for one outer context per (inner template, role of the slot) with all edits inside "
           "the expanded slot (11-literal alphabet): ~46k programs. thorough: depth 1 with every parameter/literal fill and depth 2 for every outer context, all "
           "edits (~395k), plus every PAIR of disjoint edits (11-literal alphabet, leaves only) of the 84 depth-1 programs (~393k): deviation bound 2. "
@@ -307,6 +307,32 @@ def mutants(prog, bname, **kw):
         yield item(tg.apply_edit(prog, path, repl), bname, "mutant", label, fine, in_main=(path[0] == 2))
 
 
+def frame_boundary_items():
+    """Local variables of the top level referenced from bodies that run in a frame of their own. A function, method or closure-in-function
+    body cannot see a `let` of the enclosing file at run time ("No such variable"), so an accepted program must not contain such a use."""
+    uses = [("result", "g"), ("operand", "a + g"), ("if branch", "if a > 0 { g } else { 0 }"), ("argument", "max(a, g)"),
+            ("closure inside the body", "let h = fun(): Int { g }\n  h()"), ("list item", "[g, a].len()"), ("let value", "let b: Int = g\n  b + a"),
+            ("loop body", "let t = 0\n  for i in [a] { t = t + g }\n  t"), ("assignment target", "g = a\n  a")]
+    tops = [("let", "let g = 1\n"), ("annotated let", "let g: Int = 1\n"), ("let after the definition", None), ("let in a top-level block", "{\n  let g = 1\n}\n"),
+            ("two lets", "let g = 1\nlet g2 = g\n")]
+    for tl, top in tops:
+        for ul, use in uses:
+            for owner in ("function", "method"):
+                if owner == "function":
+                    d = f"fun f(a: Int): Int {{\n  {use}\n}}\n"
+                    call = "println(string_repr(f(2)))\n"
+                else:
+                    d = f"method m(this: Int, a: Int): Int {{\n  {use}\n}}\n"
+                    call = "println(string_repr(3.m(2)))\n"
+                src = (d + "let g = 1\n" + call) if top is None else (top + d + call)
+                label = f"top-level local referenced from a {owner} body ({tl}; {ul})"
+                yield {"src": src, "label": f"top-level local referenced from a {owner} body", "fine": label, "base": "frame-boundary", "kind": "mutant", "in_main": False}
+    # the same uses with the variable as a parameter: accepted and fine (the family is not vacuous)
+    for ul, use in uses:
+        yield {"src": f"fun f(a: Int, g: Int): Int {{\n  {use}\n}}\nprintln(string_repr(f(2, 1)))\n", "label": "frame boundary control", "fine": f"control ({ul})",
+               "base": "frame-boundary", "kind": "mutant", "in_main": False}
+
+
 def chunks(it, n):
     buf = []
     for x in it:
@@ -366,6 +392,11 @@ def run(ctx):
     for ch in chunks(d2(), 40000):
         ex.process(ch)
         print(f"[C16] depth 2: {ex.n['programs']} programs so far", flush=True)
+    before = ex.n["programs"], ex.n["accepted"]
+    ex.process(list(frame_boundary_items()))
+    ctx.bound("frame_boundary_programs", ex.n["programs"] - before[0])
+    if ex.n["accepted"] - before[1] < 5 and not ctx.violations:
+        raise Machinery("vacuous: the frame-boundary controls are not accepted by check")
     n_single = ex.n["programs"] - n_base
     # 3. thorough: every pair of disjoint edits of the depth-1 canonical programs, reduced alphabet
     n_pairs = 0
